@@ -525,6 +525,18 @@ impl<A> SimBuilderScoped<'_, A> {
         &self.base.inner
     }
 
+    /// Resolves a path relative to the current scope.
+    ///
+    /// The relative path may consist of multiple components (`"a.b"`), so it
+    /// must be appended component by component: `ObjectPath::appended` treats
+    /// its argument as a single name.
+    fn absolute(&self, relative: &ObjectPath) -> ObjectPath {
+        relative
+            .as_str()
+            .split('.')
+            .fold(self.scope.clone(), |path, name| path.appended(name))
+    }
+
     /// Sets the current scope module.
     ///
     /// This call is equivalent to `sim.node(scope, <module_block>)` on [`Sim`].
@@ -536,23 +548,21 @@ impl<A> SimBuilderScoped<'_, A> {
     ///
     /// See [`SimBuilder::node`] for more information.
     pub fn node(&mut self, path: impl Into<ObjectPath>, module_block: impl ModuleBlock) {
-        self.base
-            .node(self.scope.appended(path.into().as_str()), module_block);
+        self.base.node(self.absolute(&path.into()), module_block);
     }
 
     /// Creates a gate on an existing node within the current scope.
     ///
     /// See [`SimBuilder::gate`] for more information.
     pub fn gate(&mut self, path: impl Into<ObjectPath>, gate: &str) -> GateRef {
-        self.base.gate(self.scope.appended(path.into()), gate)
+        self.base.gate(self.absolute(&path.into()), gate)
     }
 
     /// Creates a cluster gate on an existing node within the current scope.
     ///
     /// See [`SimBuilder::gates`] for more information.
     pub fn gates(&mut self, path: impl Into<ObjectPath>, gate: &str, size: usize) -> Vec<GateRef> {
-        self.base
-            .gates(self.scope.appended(path.into()), gate, size)
+        self.base.gates(self.absolute(&path.into()), gate, size)
     }
 }
 
